@@ -166,7 +166,26 @@ def handleNested (req call : Json) : Json :=
   | .ok j => j
   | .error e => Json.mkObj [("error", e)]
 
+/-- `subgraph(types, fun)` called directly. -/
+def handleDirect (d : Json) : Json :=
+  match (do
+    let kind ← d.getObjValAs? String "types"
+    let tys ← ((d.getObjValAs? (Array Json) "tys").toOption.getD #[]).toList.mapM parseTy
+    let ta : TypesArg := if kind == "ok" then .ok tys else if kind == "notIterable" then .notIterable else .hasNonType
+    let (id, beh) ← parseBeh (← d.getObjVal? "cb")
+    let (res, w1) := subgraphEntry ta id beh ⟨[], 0⟩
+    let resJ := match res with
+      | .ok g => Json.mkObj [("ok", toJson g.nResults), ("nargs", toJson g.args.length)]
+      | .error e => Json.mkObj [("err", errName e)]
+    return Json.mkObj [("result", resJ), ("events", Json.arr (w1.events.reverse.map eventJson).toArray),
+      ("count", toJson (w1.count id))]) with
+  | .ok j => j
+  | .error e => Json.mkObj [("error", e)]
+
 def handle (req : Json) : Json :=
+  match req.getObjVal? "direct" with
+  | .ok d => handleDirect d
+  | .error _ =>
   match req.getObjVal? "nested" with
   | .ok call => handleNested req call
   | .error _ =>
